@@ -9,6 +9,11 @@ FIN = {'eof': 'FinEof', 'pending': 'FinPending', 'err': 'FinErr'}
 CASE_TYPE = 'framing_kind * bool * fin * list (list N)'
 # model | Spec  (Spec only defined for stop mode: "-" otherwise)
 FN = 'eval_case_tr'
+# set by the check's run(): can the model be evaluated (else the Spec alone is), can the write-path model
+MODE = {'models': True, 'write': True}
+SPEC_REQUIRES = ['Base.Show', 'Base.Frame', 'Spec.Framing', 'Spec.SpecEval']
+KCODE = {'tcp': 0, 'rtureq': 1, 'rtursp': 2}
+
 
 
 # ---------------------------------------------------------------- CRC-16/MODBUS (third, independent implementation)
@@ -198,19 +203,45 @@ def strip_stats(line):
     return out, {k: (v if k == 'offered' else int(v)) for k, v in stats.items()}
 
 
+def coq_pairs(ctx, what, terms, case_type):
+    """evaluate `what` in {'client', 'client_rtu', 'emit'} on Coq terms -> list of (model or None, spec).
+    With the models available: Model/FramingEval (model|spec); otherwise Spec/SpecEval (the Spec alone)."""
+    if not terms:
+        return []
+    if MODE['models']:
+        fn = {'client': 'eval_client', 'client_rtu': 'eval_client_rtu', 'emit': 'eval_emit'}[what]
+        return [tuple(b.partition('|')[::2]) for b in ctx.coq_eval(REQUIRES, fn, terms, case_type=case_type, per_shard=100)]
+    fn = {'client': 'spec_client', 'client_rtu': 'spec_client_rtu', 'emit': 'spec_emit'}[what]
+    return [(None, b) for b in ctx.coq_eval(SPEC_REQUIRES, fn, terms, case_type=case_type, per_shard=100)]
+
+
+def to_coq_spec(case):
+    kind, mode, fin, chunks = case
+    return '(%d, %s, %s, [%s])' % (KCODE[kind], vlib.coq_bool(mode == 'resume'), FIN[fin], ';'.join(vlib.coq_N_list(c) for c in chunks))
+
+
 def evaluate(ctx, cases, decode='min'):
-    """-> list of (impl, model, spec, stats); stats['offered'] / stats['model_offered'] = space offered per read"""
+    """-> list of (impl, model, spec, stats); stats['offered'] / stats['model_offered'] = space offered per read.
+    model is None when the model cannot be evaluated (Spec-only fallback)"""
     if not cases:
         return []
     impl = ctx.harness('frames', [to_line(c) for c in cases], args=['--stats', '--decode', decode], shards=8)
     both = []
     for k in range(0, len(cases), 3200):          # keep each generated .v file small (coqc chokes on multi-MB literals)
-        both += ctx.coq_eval(REQUIRES, FN, [to_coq(c) for c in cases[k:k + 3200]], case_type=CASE_TYPE, per_shard=80)
+        if MODE['models']:
+            both += ctx.coq_eval(REQUIRES, FN, [to_coq(c) for c in cases[k:k + 3200]], case_type=CASE_TYPE, per_shard=80)
+        else:
+            both += ['\x00|' + b + '|' for b in ctx.coq_eval(SPEC_REQUIRES, 'spec_case', [to_coq_spec(c) for c in cases[k:k + 3200]],
+                                                              case_type='N * bool * fin * list (list N)', per_shard=80)]
     res = []
     for i, b in zip(impl, both):
         out, stats = strip_stats(i)
         model, spec, trace = b.split('|')
-        stats['model_offered'] = trace
+        if model == '\x00':
+            model = None
+            stats.pop('offered', None)
+        else:
+            stats['model_offered'] = trace
         res.append((out, model, spec, stats))
     return res
 
@@ -266,9 +297,9 @@ def compare(ctx, cases, results, what, decode='min'):
                               + (' when waiting next_frame calls are abandoned and re-entered between chunks' if mtag == '.cancel' else
                                  ' when it is polled again after a framing error (RTU server across a port re-open): something is delivered that no clean parse of the remaining stream yields' if mtag else '')
                               + f': impl={i2[:200]} spec={s2[:200]}',
-                              {'cases': [case_to_json(small)], 'impl': i2, 'spec': s2, 'model': m2, 'original_case': case_to_json(c),
+                              {'cases': [case_to_json(small)], 'impl': i2, 'spec': s2, 'model': m2 if m2 is not None else 'not available (Spec-only fallback)', 'original_case': case_to_json(c),
                                'harness_line': to_line(small) + ('' if decode == 'min' else f'   (--decode {decode})'), 'decode': decode})
-        elif impl != model:
+        elif model is not None and impl != model:
             n_model += 1
             if n_model == 1:
                 def failsm(cs):
@@ -279,7 +310,7 @@ def compare(ctx, cases, results, what, decode='min'):
                               f'{what}: implementation and model disagree: impl={i2[:200]} model={m2[:200]}',
                               {'cases': [case_to_json(small)], 'impl': i2, 'model': m2, 'spec': s2, 'original_case': case_to_json(c),
                                'harness_line': to_line(small), 'decode': decode}, no_failing_input=True)
-        elif st.get('offered', '') != st.get('model_offered', '') and 'PANIC' not in impl:
+        elif model is not None and st.get('offered', '') != st.get('model_offered', '') and 'PANIC' not in impl:
             # same frames, but the ReadBuffer offered other amounts of space than the model's begin/end indices imply
             n_buf += 1
             if n_buf == 1:
